@@ -25,6 +25,8 @@ pub struct Profile {
     pub directive_docs: bool,
     /// shapes on which the unchanged code was seen to violate a property (kept in D by the property texts)
     pub wild: bool,
+    /// arrays of arrays in parameter / property position (compile-level finding C02-nested-array-input)
+    pub nested_arrays: bool,
 }
 
 impl Profile {
@@ -42,10 +44,15 @@ impl Profile {
             odd_bodies: false,
             directive_docs: false,
             wild: false,
+            nested_arrays: true,
         }
     }
     pub fn wild() -> Self {
         Profile { wild: true, array_components: true, odd_bodies: true, ..Profile::rich() }
+    }
+    /// rich without the input shapes recorded as open compile-level findings: what must compile
+    pub fn tame() -> Self {
+        Profile { nested_arrays: false, ..Profile::rich() }
     }
     pub fn rich() -> Self {
         Profile { hard_names: true, docs: true, max_components: 8, max_ops: 6, synth_names: true, ..Profile::safe() }
@@ -155,7 +162,7 @@ fn object_schema(rng: &mut Rng, p: &Profile, refs: &[String]) -> Schema {
     let mut props = vec![];
     let mut required = vec![];
     for nm in names {
-        let mut r = field_ref(rng, refs, 2);
+        let mut r = field_ref(rng, refs, if p.nested_arrays { 2 } else { 1 });
         if let SRef::Inl(s) = &mut r {
             if s.descr.is_none() {
                 s.descr = doc(rng, p);
@@ -224,6 +231,19 @@ pub fn gen_spec(rng: &mut Rng, p: &Profile) -> Spec {
             obj_names.push(name.clone());
         }
         spec.components.push((name.clone(), sc));
+    }
+    if p.wild && rng.chance(1, 8) && !names.iter().any(|n| n == "Node" || n == "Tree") {
+        // recursive schemas: directly, through an optional member, mutually; and (harmless today) through an array
+        match rng.below(4) {
+            0 => spec.components.push(("Node".into(), s_obj(vec![("value", inl(s_int())), ("child", rf("Node"))], &["value", "child"]))),
+            1 => spec.components.push(("Node".into(), s_obj(vec![("value", inl(s_int())), ("next", rf("Node"))], &["value"]))),
+            2 => {
+                spec.components.push(("Node".into(), s_obj(vec![("tree", rf("Tree"))], &["tree"])));
+                spec.components.push(("Tree".into(), s_obj(vec![("root", rf("Node"))], &[])));
+            }
+            _ => spec.components.push(("Node".into(), s_obj(vec![("value", inl(s_int())), ("children", inl(s_arr(rf("Node"))))], &["value"]))),
+        }
+        obj_names.push("Node".into());
     }
     if p.wild && p.array_components && rng.chance(1, 6) && !names.iter().any(|n| n == "Item" || n == "Items") {
         // a plural array component with inline items, declared after the component its invented item name would take
@@ -302,8 +322,8 @@ pub fn gen_spec(rng: &mut Rng, p: &Profile) -> Spec {
             let schema = match rng.below(10) {
                 0 => inl(s_arr(inl(s_string()))),
                 1 => inl(s_arr(inl(s_int()))),
-                8 => inl(s_arr(inl(s_arr(inl(s_int()))))),
-                9 => inl(s_arr(inl(s_arr(inl(s_string()))))),
+                8 if p.nested_arrays => inl(s_arr(inl(s_arr(inl(s_int()))))),
+                9 if p.nested_arrays => inl(s_arr(inl(s_arr(inl(s_string()))))),
                 2 if !obj_names.is_empty() => SRef::Ref(obj_names[rng.below(obj_names.len())].clone()),
                 _ => inl(prim(rng)),
             };
